@@ -9,6 +9,7 @@ import (
 	"path/filepath"
 	"strings"
 	"testing"
+	"time"
 
 	"github.com/TimothyStiles/poly/io/fasta"
 
@@ -322,6 +323,8 @@ func (c13) Run(t *testing.T, tape *core.Tape, rcx *RunCtx) *core.Result {
 
 	var got []fasta.Fasta
 	var slice []fasta.Fasta
+	var stallTime time.Duration
+	stallCount := 0
 	closed := false
 	var sim *core.Sim
 	var rd *core.SimReader
@@ -386,9 +389,16 @@ func (c13) Run(t *testing.T, tape *core.Tape, rcx *RunCtx) *core.Result {
 			// the consumer is a real goroutine that blocks in a real receive (a polling
 			// sender must be able to meet it) and yields before every receive, so when it
 			// receives - eagerly, lazily, in bursts, after long stalls - is up to the scheduler
+			stalls := tape.Chance(30) // this consumer also stalls in (fake) time, not only in scheduling
 			sim.GoConsumer(func() {
 				for {
 					sim.Yield("consumer:before-receive")
+					if stalls && tape.Draw(5) == 4 {
+						d := []time.Duration{time.Millisecond, 300 * time.Millisecond, 2 * time.Second, time.Minute, time.Hour}[tape.Draw(5)]
+						time.Sleep(d)
+						stallTime += d
+						stallCount++
+					}
 					r, ok := <-ch
 					if !ok {
 						closed = true
@@ -414,6 +424,8 @@ func (c13) Run(t *testing.T, tape *core.Tape, rcx *RunCtx) *core.Result {
 	res.Nontrivial = sim.Multi > 0 || (rd != nil && rd.ShortReads+rd.ZeroReads+rd.EOFWithData > 0)
 	res.ShapeKey = fmt.Sprintf("%s|%s|n%d|cap%d|gz%v|%s|%s|%s|b%d", sc.Entry, sc.Writer, nrec, sc.Cap, sc.Gzip, sc.Wrap, sc.LineEnd, sc.Reader, len(payload))
 	res.Count("decisions_with_choice", int64(sim.Multi))
+	res.Count("fault_consumer_stall_in_simulated_time", int64(stallCount))
+	res.SimTimeNs = int64(sim.SimTime)
 	res.Count("probe_entry_"+sc.Entry, 1)
 	if large {
 		res.Count("probe_sequence_line_over_64KiB_candidates", 1)
